@@ -129,6 +129,8 @@ def mk_parent(p, N):
         return lib.chrom_parent(GENOME[:N], name=CHROM)
     if p == "chrom0":
         return Parent(id=CHROM, sequence_type=SequenceType.CHROMOSOME)
+    if p == "chromx":  # a chromosome with sequence but WITHOUT an identifier (seq_to_parent(genome))
+        return lib.chrom_parent(GENOME[:N], name=None)
     if p == "chroms":  # a chromosome whose sequence declares the strict alphabet (not the parser's default one)
         from inscripta.biocantor.sequence.alphabet import Alphabet
 
@@ -222,7 +224,7 @@ def parent_kinds(lo, hi, N, tier):
     for w in wins:
         if w not in seen:
             seen.append(w)
-    return out + [["chunk", a, b] for a, b in seen] + ["chroms", ["chunks", seen[0][0], seen[0][1]], ["chunks", seen[1][0], seen[1][1]]]
+    return out + [["chunk", a, b] for a, b in seen] + ["chroms", "chromx", ["chunks", seen[0][0], seen[0][1]], ["chunks", seen[1][0], seen[1][1]]]
 
 
 # ---------------------------------------------------------------------------------------------------------------------
